@@ -352,3 +352,63 @@ pub fn to_params(p: &Value) -> Result<CertificateParams, String> {
 	cp.key_identifier_method = to_kid(&p["kid"]);
 	Ok(cp)
 }
+
+// ---- abstract views of rcgen values (public fields / accessors only) --------------------------------
+
+pub fn time_view(t: time::OffsetDateTime) -> Value {
+	let u = t.to_offset(time::UtcOffset::UTC);
+	json!({"y": u.year(), "mo": u.month() as u8, "d": u.day(), "h": u.hour(), "mi": u.minute(), "s": u.second()})
+}
+
+pub fn is_ca_view(c: &IsCa) -> Value {
+	match c {
+		IsCa::NoCa => json!({"k": "NoCa", "pl": {"k": "none", "n": 0}}),
+		IsCa::ExplicitNoCa => json!({"k": "ExplicitNoCa", "pl": {"k": "none", "n": 0}}),
+		IsCa::Ca(BasicConstraints::Unconstrained) => json!({"k": "Ca", "pl": {"k": "none", "n": 0}}),
+		IsCa::Ca(BasicConstraints::Constrained(n)) => json!({"k": "Ca", "pl": {"k": "some", "n": n}}),
+	}
+}
+
+pub fn subtree_view(s: &GeneralSubtree) -> Value {
+	match s {
+		GeneralSubtree::Rfc822Name(n) => json!({"v": "rfc822", "val": hex(n.as_bytes()), "b": [], "mask": [], "dn": []}),
+		GeneralSubtree::DnsName(n) => json!({"v": "dns", "val": hex(n.as_bytes()), "b": [], "mask": [], "dn": []}),
+		GeneralSubtree::DirectoryName(d) => json!({"v": "dir", "val": "", "b": [], "mask": [], "dn": dn_view(d)}),
+		GeneralSubtree::IpAddress(CidrSubnet::V4(a, m)) => json!({"v": "ip", "val": "", "b": bytes_json(a), "mask": bytes_json(m), "dn": []}),
+		GeneralSubtree::IpAddress(CidrSubnet::V6(a, m)) => json!({"v": "ip", "val": "", "b": bytes_json(a), "mask": bytes_json(m), "dn": []}),
+		_ => json!({"v": "unknown", "val": "", "b": [], "mask": [], "dn": []}),
+	}
+}
+
+pub fn kid_view(k: &KeyIdMethod) -> Value {
+	match k {
+		KeyIdMethod::PreSpecified(b) => json!({"k": "pre", "b": bytes_json(b)}),
+		#[cfg(feature = "crypto")]
+		KeyIdMethod::Sha256 => json!({"k": "sha256", "b": []}),
+		#[cfg(feature = "crypto")]
+		KeyIdMethod::Sha384 => json!({"k": "sha384", "b": []}),
+		#[cfg(feature = "crypto")]
+		KeyIdMethod::Sha512 => json!({"k": "sha512", "b": []}),
+		_ => json!({"k": "unknown", "b": []}),
+	}
+}
+
+pub fn params_view(p: &CertificateParams) -> Value {
+	json!({
+		"dn": dn_view(&p.distinguished_name),
+		"isCa": is_ca_view(&p.is_ca),
+		"ku": Value::Array(p.key_usages.iter().map(|k| json!(ku_index(k))).collect()),
+		"eku": Value::Array(p.extended_key_usages.iter().map(|e| json!(eku_oid(e))).collect()),
+		"sans": Value::Array(p.subject_alt_names.iter().map(san_view).collect()),
+		"nc": match &p.name_constraints {
+			None => json!({"k": "none", "perm": [], "excl": []}),
+			Some(nc) => json!({"k": "some",
+				"perm": Value::Array(nc.permitted_subtrees.iter().map(subtree_view).collect()),
+				"excl": Value::Array(nc.excluded_subtrees.iter().map(subtree_view).collect())}),
+		},
+		"serial": match &p.serial_number { Some(s) => json!({"k": "given", "b": bytes_json(&s.to_bytes())}), None => json!({"k": "auto", "b": []}) },
+		"nb": time_view(p.not_before), "na": time_view(p.not_after),
+		"kid": kid_view(&p.key_identifier_method),
+		"crldp": p.crl_distribution_points.len(), "custom": p.custom_extensions.len(), "aki": p.use_authority_key_identifier_extension,
+	})
+}
